@@ -1,6 +1,7 @@
 package main
 
 import (
+	"strings"
 	"fmt"
 	"sort"
 
@@ -78,11 +79,25 @@ func init() {
 			nFilters, nObjs, nSingle = 400, len(corpus.Certs), len(names)
 		}
 		certs := corpus.sampleCerts(rng, nObjs)
+		for i, der := range manySanCerts() {
+			if c, err := x509.ParseCertificate(der); err == nil {
+				certs = append(certs, CorpusCert{fmt.Sprintf("generated-many-san-%d", i), der, c})
+			}
+		}
+		// every run lints a freshly parsed object: a lint that rewrites the object would otherwise leave the same
+		// trace in both runs
+		fresh := func(cc CorpusCert) *x509.Certificate {
+			c, err := x509.ParseCertificate(cc.DER)
+			if err != nil {
+				return cc.Cert
+			}
+			return c
+		}
 		// full runs, twice, to know which lints are reproducible on which object
 		type fullRun struct{ a, b *zlint.ResultSet }
 		fullCert := make([]fullRun, len(certs))
 		for i, cc := range certs {
-			fullCert[i] = fullRun{zlint.LintCertificate(cc.Cert), zlint.LintCertificate(cc.Cert)}
+			fullCert[i] = fullRun{zlint.LintCertificate(fresh(cc)), zlint.LintCertificate(fresh(cc))}
 		}
 		fullCrl := make([]fullRun, len(corpus.CRLs))
 		for i, cc := range corpus.CRLs {
@@ -105,6 +120,32 @@ func init() {
 			specs = append(specs, FilterSpec{IncludeNames: []string{n}})
 		}
 		runs, compared := 0, 0
+		// every lint alone (singleton registries) on the generated many-name objects and a few corpus objects: the sharpest
+		// form of "does not depend on which other lints run"
+		{
+			var singles []int
+			for i, cc := range certs {
+				if strings.HasPrefix(cc.File, "generated-") || i%15 == 0 || tier() == "thorough" {
+					singles = append(singles, i)
+				}
+			}
+			for _, n := range names {
+				fr, err := g.Filter(lint.FilterOptions{IncludeNames: []string{n}})
+				if err != nil {
+					continue
+				}
+				cn, _, _ := namesOfKind(fr)
+				if len(cn) == 0 {
+					continue
+				}
+				for _, i := range singles {
+					filt := zlint.LintCertificateEx(fresh(certs[i]), fr)
+					compareFiltered(out, "cert "+certs[i].File, FilterSpec{IncludeNames: []string{n}}, fullCert[i].a, fullCert[i].b, filt, cn)
+					runs++
+					compared++
+				}
+			}
+		}
 		for si, f := range specs {
 			fr, err := g.Filter(f.opts())
 			if err != nil {
@@ -116,7 +157,7 @@ func init() {
 				if isSingle && i%12 != si%12 {
 					continue
 				}
-				filt := zlint.LintCertificateEx(cc.Cert, fr)
+				filt := zlint.LintCertificateEx(fresh(cc), fr)
 				compareFiltered(out, "cert "+cc.File, f, fullCert[i].a, fullCert[i].b, filt, cn)
 				runs++
 				compared += len(cn)
